@@ -32,6 +32,7 @@ type C04Case struct {
 	PostSSE bool    `json:"postsse"`
 	Ops     []C04Op `json:"ops"`
 	Order   int     `json:"order,omitempty"` // the server options are given in this rotation of their usual order (options are a set, not a sequence)
+	MW      int     `json:"mw,omitempty"`    // number of pass-through middlewares the server is built with (the life cycle does not depend on them)
 }
 
 // initialize requests the server rejects (answered with a JSON-RPC error): whatever id the answer carries is an issued id
@@ -48,6 +49,7 @@ var garbageIDs = []string{"x", "../../etc/passwd", "0000", "deadbeef", "é", " "
 func genC04(t *rapid.T) C04Case {
 	c := C04Case{Cfg: rapid.SampledFrom([]int{0, 0, 0, 0, 1, 2}).Draw(t, "cfg"), GetSSE: rapid.IntRange(0, 4).Draw(t, "get") != 0, PostSSE: rapid.Bool().Draw(t, "postsse")}
 	c.Order = rapid.IntRange(0, 5).Draw(t, "order")
+	c.MW = rapid.SampledFrom([]int{0, 0, 1, 2}).Draw(t, "mw")
 	n := rapid.IntRange(1, 14).Draw(t, "nops")
 	for i := 0; i < n; i++ {
 		op := C04Op{Op: rapid.SampledFrom([]string{"init", "init", "badinit", "req", "req", "req", "notif", "resp", "get", "get", "closestream", "delete", "delete", "deleterace"}).Draw(t, "op")}
@@ -110,6 +112,11 @@ func c04Server(c C04Case) *mcp.Server {
 		opts = append(opts, mcp.WithStatelessMode(true))
 	case 2:
 		opts = append(opts, mcp.WithoutSession())
+	}
+	for i := 0; i < c.MW; i++ {
+		opts = append(opts, mcp.WithMiddleware(func(next mcp.HandlerFunc) mcp.HandlerFunc {
+			return func(ctx context.Context, req *mcp.JSONRPCRequest) (mcp.JSONRPCMessage, error) { return next(ctx, req) }
+		}))
 	}
 	if k := c.Order % len(opts); k > 0 {
 		opts = append(append([]mcp.ServerOption(nil), opts[k:]...), opts[:k]...)
@@ -668,7 +675,24 @@ func execC04IDs(c C04IDCase) *Failure {
 			sigma := math.Sqrt(float64(cnt)) / 2
 			for i, o := range ones {
 				if math.Abs(float64(o)-float64(cnt)/2) > 5*sigma {
-					return Failf("C04/id-biased-bit", "bit %d of the session ids is set in %d of %d ids (>5 sigma from half)", i, o, cnt)
+					// a statistical verdict is confirmed on a fresh, larger sample before it is reported: a real bias of that
+					// bit persists, a chance excursion (about one run in ten thousand shows one somewhere) does not
+					more, f := issueIDs(4000, c.Servers)
+					if f != nil {
+						return f
+					}
+					o2, n2 := 0, 0
+					for _, id := range more {
+						if r, err := hex.DecodeString(id); err == nil && len(r)*8 == nb {
+							n2++
+							if r[i/8]&(1<<(7-uint(i%8))) != 0 {
+								o2++
+							}
+						}
+					}
+					if math.Abs(float64(o2)-float64(n2)/2) > 5*math.Sqrt(float64(n2))/2 {
+						return Failf("C04/id-biased-bit", "bit %d of the session ids is set in %d of %d ids, and in %d of %d further ids (>5 sigma from half both times)", i, o, cnt, o2, n2)
+					}
 				}
 			}
 		}
